@@ -88,6 +88,7 @@ def run(rep, props, replay=None):
             est = np.asarray(make_lp(kernel, h, p).predict(y=y, x=x, x_new=xq), float)
         opts = {"dim": 1, "kernel": kernel, "degree": p, "bandwidth": h, "domain": [a, b], "n": n}
         replay_d = {**opts, "x": C.hexf(x), "y": C.hexf(y), "x_new": C.hexf(xq)}
+        default_query(rep, kernel, h, p, x, y, np.unique(x), replay_d)
         for q, x0 in enumerate(xq):
             U = (x - x0) / h
             w = kernel_np(kernel, U)
@@ -190,6 +191,9 @@ def case_2d(rep, rng, runq, todo, quick, i):
         warnings.simplefilter("ignore")
         est = np.asarray(make_lp(kernel, h, p).predict(y=y, x=X, x_new=Xq), float)
     opts = {"dim": 2, "kernel": kernel, "degree": p, "bandwidth": h, "n": n}
+    Xt = np.vstack([X, X[: max(2, n // 5)]])                       # replicated sites
+    yt = np.concatenate([y, y[: max(2, n // 5)] + 1.0])
+    default_query(rep, kernel, h, p, Xt, yt, np.unique(Xt, axis=0), {**opts, "X": C.hexf(Xt), "y": C.hexf(yt)})
     nb = (p + 1) * (p + 2) // 2
     for q, x0 in enumerate(Xq):
         U = (X - x0) / h
@@ -209,6 +213,19 @@ def case_2d(rep, rng, runq, todo, quick, i):
                      f"{runq.vec(y)} {C.qlist(beta)} {C.qlit(est[q])}")
         todo.append((t, (2, kernel, p, h, X.tobytes(), y.tobytes(), tuple(x0)), opts,
                      {**opts, "X": C.hexf(X), "y": C.hexf(y), "x0": [float(v) for v in x0], "estimate": float(est[q])}))
+
+
+def default_query(rep, kernel, h, p, x, y, distinct, replay_d):
+    """x_new left to its default = the distinct design points; ALL observations (ties included) stay in the fit."""
+    with warnings.catch_warnings():
+        warnings.simplefilter("ignore")
+        e_def = np.asarray(make_lp(kernel, h, p).predict(y=y, x=x), float)
+        e_exp = np.asarray(make_lp(kernel, h, p).predict(y=y, x=x, x_new=distinct), float)
+    rep.case(("default-query", kernel, p, h, np.asarray(x).tobytes(), y.tobytes()), kind=f"default-query/{np.ndim(x)}-D")
+    fin = np.isfinite(e_exp) & (np.abs(e_exp) < 1e6)
+    if e_def.shape != e_exp.shape or np.max(np.abs(e_def - e_exp)[fin], initial=0) > 1e-9 * max(1.0, float(np.max(np.abs(y)))):
+        rep.violation(f"predict with x_new left to its default ({kernel}, degree {p}) differs from predict at the distinct design "
+                      f"points given explicitly (design with {len(x) - len(distinct)} tied observations)", replay_d)
 
 
 def kernel_monitor(rep):
